@@ -621,7 +621,7 @@ def c10_check_case(pid, drv, rep, case, obs, hist):
 
 def c10_cases(rng, tier):
     cases = []
-    reps = 1 if tier == "quick" else 6
+    reps = 2 if tier == "quick" else 8
     for _ in range(reps):
         tc = target_contents(rng, tier)
         base = {"p.asm": hx(PROG.encode()), "src.img": hx(impl_tape([SRC_FILE]))}
@@ -663,7 +663,7 @@ def c10_sequences(rng, tier, n):
 
 
 def run_c10(pid, tier, rng, drv, rep, hist):
-    cases = c10_cases(rng, tier) + c10_sequences(rng, tier, {"quick": 24, "thorough": 400}[tier])
+    cases = c10_cases(rng, tier) + c10_sequences(rng, tier, {"quick": 48, "thorough": 500}[tier])
     allobs = run_cases(cases)
     for case, obs in zip(cases, allobs):
         rep.count(digest([sorted(case["files"].items()), case["invs"]]))
@@ -865,7 +865,7 @@ def run_c09(pid, tier, rng, drv, rep, hist):
             if w.get("kind") == "bigtape":
                 fs = [("BIG%d" % i, "BIN", 2, 0, 0x0E00, 0x0E00, bytes(w["length"])) for i in range(w["count"])]
                 c09_check_history(pid, drv, rep, "cas", [("A", f) for f in fs] + [("S",)], hist)
-    n_hist = {"quick": 90, "thorough": 2500}[tier]
+    n_hist = {"quick": 160, "thorough": 2500}[tier]
     hs = []
     for i in range(n_hist):
         kind = "cas" if i % 2 == 0 else "dsk"
@@ -885,7 +885,7 @@ def run_c09(pid, tier, rng, drv, rep, hist):
                 ops += [("A", f), ("S",)]
             rep.count(("grow", fill))
             c09_check_history(pid, drv, rep, "cas", ops, hist)
-    cases = c09_cli_cases(rng, tier, {"quick": 16, "thorough": 300}[tier])
+    cases = c09_cli_cases(rng, tier, {"quick": 24, "thorough": 300}[tier])
     allobs = run_cases(cases)
     for case in cases:
         rep.count(digest([case["files"], case["invs"]]))
@@ -1012,12 +1012,12 @@ def run_c16(pid, tier, rng, drv, rep, hist):
                 cases.append({"label": "cas->dsk->cas/witness", "files": {"src.img": hx(impl_tape(fs))}, "empty": True, "invs": [
                     {"tool": "futil", "kinds": ["dsk"], "targets": {"dsk": "t.img"}, "append": False, "src": "src.img", "files": None},
                     {"tool": "futil", "kinds": ["cas"], "targets": {"cas": "back.img"}, "append": False, "src": "t.img", "files": None}]})
-    n = {"quick": 60, "thorough": 1500}[tier]
+    n = {"quick": 140, "thorough": 1500}[tier]
     for i in range(n):
         c = c16_case(rng, tier, i)
         if c is not None:
             cases.append(c)
-    for i in range({"quick": 10, "thorough": 120}[tier]):
+    for i in range({"quick": 16, "thorough": 120}[tier]):
         cases.append(c16_bin_case(rng, tier, many=(i % 2 == 0)))
     allobs = run_cases(cases)
     for case, obs in zip(cases, allobs):
